@@ -350,12 +350,12 @@ Proof. exact vertical_tile_id_example. Qed.
 (* ---- tie to the source by regeneration (DESIGN.md 4.2): shape.CheckZoom and the two literals of SetLat (the latitude limit and 10^10),
    read from /repo's current source on every run, are what the model uses ---- *)
 From SIDGen Require Generated.
-From SID Require GenEqCheck GenEqConst.
+From SID Require GenEqCheck GenEqConstSetLat.
 Theorem C01_generated_CheckZoom_is_the_model : forall z, Generated.CheckZoom z = Ids.check_zoom z.
 Proof. exact GenEqCheck.gen_CheckZoom_eq. Qed.
 Print Assumptions C01_generated_CheckZoom_is_the_model.
 Theorem C01_generated_SetLat_literals : Generated.SetLat_limit = (850511287798, -10)%Z /\ Generated.SetLat_scale = (10 ^ 10)%Z.
-Proof. exact GenEqConst.gen_SetLat_eq. Qed.
+Proof. exact GenEqConstSetLat.gen_SetLat_eq. Qed.
 Print Assumptions C01_generated_SetLat_literals.
 
 (* ================= the main results over the float kernels REGENERATED from /repo (SIDGen.GeneratedF, theories/GenC01.v) =================
